@@ -386,6 +386,78 @@ def random_sequence(chk, rng, sid, work, fp, recs):
     return nrec
 
 
+def roundtrip_probes(chk, work, rng):
+    """netCDF round trips and concatenations on inputs the random sequences rarely produce: time stamps that are not whole
+    seconds (as a logger, a netCDF file or mean("time") delivers them) and members passed in non-chronological order."""
+    import numpy as np
+    from ocean_science_utilities.wavespectra.operations import concatenate_spectra
+    from ocean_science_utilities.wavespectra.spectrum import load_spectrum_from_netcdf
+    n = 0
+    for kind in ("1d", "2d"):
+        for shape in ((), (3,), (2, 2)):
+            # (millisecond stamps only: nanosecond stamps such as 1.333333333 s cannot be written by the netCDF3 backend of this
+            # sandbox - int64 - whatever the library does; that is a property of the backend, not of the library)
+            for stamps in ("ms",):
+                o = make_base(1, shape, kind)
+                t0 = np.datetime64("2021-06-07T08:09:10.000000000")
+                if shape:
+                    off = [np.timedelta64(1250 * i + 7, "ms") if stamps == "ms" else np.timedelta64(1333333333 * (i + 1), "ns") for i in range(shape[0])]
+                    o.dataset = o.dataset.assign_coords(time=("time", np.array([t0 + x for x in off]).astype("datetime64[ns]")))
+                else:
+                    o.dataset["time"] = ((), (t0 + np.timedelta64(1333333333, "ns")).astype("datetime64[ns]"))
+                p = os.path.join(work, "probe_%s_%d_%s.nc" % (kind, len(shape), stamps))
+                ctx = {"kind": kind, "shape": list(shape), "time_stamps": stamps}
+                try:
+                    o.save_as_netcdf(p)
+                    res = load_spectrum_from_netcdf(p)
+                    res.dataset.load()
+                    res.dataset.close()
+                    os.remove(p)
+                except Exception as e:
+                    chk.violation("raise:roundtrip-probe:%s" % type(e).__name__, "netCDF round trip of a spectrum with sub-second time stamps raised", dict(ctx, error=str(e)[:300]))
+                    continue
+                n += 1
+                bad = []
+                if type(res) is not type(o):
+                    bad.append("kind")
+                for name in o.dataset.variables:
+                    if name not in res.dataset.variables:
+                        bad.append("missing " + str(name))
+                        continue
+                    a, b = np.asarray(o.dataset[name].values), np.asarray(res.dataset[name].values)
+                    if a.dtype.kind == "M":
+                        if not np.array_equal(a.astype("datetime64[ns]"), b.astype("datetime64[ns]")):
+                            bad.append(str(name))
+                    elif not np.array_equal(a.astype("float64"), b.astype("float64"), equal_nan=True):
+                        bad.append(str(name))
+                if bad:
+                    chk.violation("roundtrip-probe:%s" % "+".join(bad), "saving to and loading from netCDF changed %s (time stamps that are not whole seconds)" % bad, ctx)
+        # concatenation of N >= 3 members in every order: element i is input i
+        for N in (3, 4):
+            singles = [make_base(k + 1, (), kind) for k in range(N)]
+            for k, sgl in enumerate(singles):
+                sgl.dataset["time"] = ((), np.datetime64("2021-01-01T00:00:00", "ns") + np.timedelta64(3600 * (k + 1), "s"))
+                sgl.dataset["latitude"] = ((), 10.0 * (k + 1))
+            for rep in range(4):
+                order = list(range(N))
+                rng.shuffle(order)
+                for dim in ("time", "latitude"):
+                    try:
+                        cat = concatenate_spectra([singles[i] for i in order], dim=dim)
+                    except Exception as e:
+                        chk.violation("raise:concat-probe:%s" % type(e).__name__, "concatenating single spectra raised", {"kind": kind, "order": order, "dim": dim, "error": str(e)[:300]})
+                        continue
+                    n += 1
+                    for pos, i in enumerate(order):
+                        el = cat.isel(**{dim: pos})
+                        if not (np.array_equal(el.variance_density.values, singles[i].variance_density.values) and
+                                np.array_equal(np.asarray(el.dataset[dim].values), np.asarray(singles[i].dataset[dim].values))):
+                            chk.violation("concat-probe:%s" % dim, "element %d of a concatenation is not input %d (members passed in the order %s)" % (pos, pos, order),
+                                          {"kind": kind, "order": order, "dim": dim})
+                            break
+    return n
+
+
 def alias_probes(chk):
     """Every selection / view producing operation followed by every operation that changes its receiver by
     contract (fillna, multiply(inplace=True)), applied to the *derived* object, with missing values present:
@@ -502,6 +574,7 @@ def run(tier):
                 nrec += random_sequence(chk, rng, "q%d" % j, work, fp, recs)
         evals += nrec
         evals += alias_probes(chk)
+        evals += roundtrip_probes(chk, work, rng)
         rt = common.run_tlc("SpectrumOpsTrace", "SpectrumOpsTrace.cfg", workers=1, timeout=3600, env={"TRACE_FILE": path})
         done = None
         for p in rt.prints:
